@@ -42,8 +42,8 @@ impl Prop for C04 {
       name: "provenance trees",
       source: Cases::Generated(
         Box::new(|| tree(GenCfg::provenance()).prop_map(|spec| TreeCase { spec }).boxed()),
-        150_000,
-        4_000_000,
+        1_000_000,
+        12_000_000,
       ),
     }]
   }
